@@ -1,24 +1,30 @@
 /-
-Driver for C06: replays a scripted async module through `Exec.runSim` (the model of the repaired
-`Harness::exec` the theorems of Props/C06.lean are about, with `Exec.tokioParams`) and through the specification
-executor `Exec.idealSim` (budgets that never bind), and compares both with what the real des simulation logged.
+Driver for C06: replays a scripted async module through `Exec.runSim` (the model of the repaired `Harness::exec`
+and of the module's event loop the theorems of Props/C06.lean are about, with `Exec.tokioParams`) and judges the
+history the real des simulation logged with the abstract specification `ExecSpec.accept` (Spec/ExecSpec.lean):
+every record must be made by a task that is runnable at that instant, and when the records of an own event's
+instant are used up no task of the module may be runnable.
 
-  reject  : some task observed a simulated time different from the instant its awaited condition became true
-            (or never ran).  When the implementation's log is the one of the single-pass model `Exec.runSim` with `single := true`
-            (the code before the repairs), `tag=` names the mechanism that left the task behind:
+  reject  : the specification rejects the implementation's history: `left-runnable task=T at=t` (T was runnable during
+            the event at t but was not polled before simulated time advanced - it observes a later instant or none)
+            or `not-runnable record=i` (a record that no runnable task can have made).  When the implementation's
+            log is the one of the single-pass model (`Exec.runSim` with `single := true`, the code before the
+            repairs), `tag=` names the mechanism:
               F4  runtime queue budget (event_interval)      F4b LocalSet tick budget (MAX_TASKS_PER_TICK)
               F4c deferred waker (yield_now / coop budget)    F4d local task woken by a runtime task after the tick
             `tag=unexplained` otherwise.
-  diverge : the specification accepts the implementation's log but its global order differs from the model's, or
+  diverge : the specification accepts the implementation's history but its global order differs from the model's, or
             the measured budgets differ from `Exec.tokioParams`.
+  internal: the specification rejects the MODEL's own history (model and specification disagree).
 -/
 import Desverif.Model.Exec
+import Desverif.Spec.ExecSpec
 import Driver.Common
 namespace Driver.C06
 open Exec Driver
 
 /-- instruction on tags (as in the script) -/
-inductive TIns | s (t : Nat) | w (k : Nat) | a (k : Nat) | y | j (t : Nat) | z (d : Nat) | u (t : Nat)
+inductive TIns | s (t : Nat) | w (k : Nat) | a (k : Nat) | y | j (t : Nat) | z (d : Nat) | u (t : Nat) | n (k : Nat)
   deriving DecidableEq
 
 def parseIns (tok : String) : Option (TIns × Nat) :=
@@ -34,7 +40,8 @@ def parseIns (tok : String) : Option (TIns × Nat) :=
     | some n =>
       if c = 's' then some (.s n, rep) else if c = 'w' then some (.w n, rep)
       else if c = 'a' then some (.a n, rep) else if c = 'j' then some (.j n, rep)
-      else if c = 'z' then some (.z n, rep) else if c = 'u' then some (.u n, rep) else none
+      else if c = 'z' then some (.z n, rep) else if c = 'u' then some (.u n, rep)
+      else if c = 'n' then some (.n n, rep) else none
   | [] => none
 
 def parseProg (toks : List String) : List TIns :=
@@ -44,7 +51,7 @@ def parseProg (toks : List String) : List TIns :=
 
 structure Script where
   tasks : Array (Nat × Kind × List TIns) := #[]
-  events : Array (Nat × Bool × List TIns) := #[]
+  events : Array (Nat × Nat × List TIns) := #[]   -- time, kind (0 ev, 1 cev, 2 xev), program
   run : Option String := none   -- the implementation's answer
 
 def parseScript (body : List String) : Script := Id.run do
@@ -57,10 +64,13 @@ def parseScript (body : List String) : Script := Id.run do
         sc := { sc with tasks := sc.tasks.push (t, if kind = "loc" then .loc else .rt, parseProg prog) }
     | "ev" :: tm :: prog =>
       if let some t := tm.toNat? then
-        sc := { sc with events := sc.events.push (t, false, parseProg prog) }
+        sc := { sc with events := sc.events.push (t, 0, parseProg prog) }
     | "cev" :: tm :: prog =>
       if let some t := tm.toNat? then
-        sc := { sc with events := sc.events.push (t, true, parseProg prog) }
+        sc := { sc with events := sc.events.push (t, 1, parseProg prog) }
+    | "xev" :: tm :: prog =>
+      if let some t := tm.toNat? then
+        sc := { sc with events := sc.events.push (t, 2, parseProg prog) }
     | ["run"] => sc := { sc with run := some rhs }
     | _ => pure ()
   return sc
@@ -72,48 +82,48 @@ def indexOf? (xs : List Nat) (x : Nat) : Option Nat :=
 def count (p : TIns → Bool) (progs : List (List TIns)) : Nat :=
   progs.foldl (fun n pr => n + (pr.filter p).length) 0
 
-/-- the static restrictions under which the model's conditions (single waiter, counting) describe the real
-primitives, see the header of harness/src/c06.rs; scripts outside are skipped -/
+/-- the static restrictions under which the model's conditions describe the real primitives and the scripted
+program does not panic, see the header of harness/src/c06.rs; scripts outside are skipped -/
 def wellFormed (sc : Script) : Bool := Id.run do
   let tags := sc.tasks.toList.map (·.1)
   let tprogs := sc.tasks.toList.map (·.2.2)
-  let eprogs := sc.events.toList.map (·.2.2)
-  let cprogs := (sc.events.toList.filter (·.2.1)).map (·.2.2)
-  let all := tprogs ++ eprogs
+  let eprogs := (sc.events.toList.filter (·.2.1 == 0)).map (·.2.2)
+  let oprogs := (sc.events.toList.filter (·.2.1 != 0)).map (·.2.2)
+  let all := tprogs ++ sc.events.toList.map (·.2.2)
   -- unique tags
   if tags.eraseDups.length != tags.length then return false
-  -- events strictly increasing in time, handlers only spawn / wake
+  -- events strictly increasing in time; handlers only spawn / wake
   let times := 0 :: sc.events.toList.map (·.1)
   if !(times.zip (times.drop 1)).all (fun (a, b) => a < b) then return false
-  if count (fun i => match i with | .s _ | .w _ => false | _ => true) eprogs != 0 then return false
-  -- a consuming element only wakes (it runs outside the executor: spawning there panics)
-  if count (fun i => match i with | .w _ => false | _ => true) cprogs != 0 then return false
-  for (_, kind, prog) in sc.tasks.toList do
+  if count (fun i => match i with | .s _ | .w _ | .n _ => false | _ => true) eprogs != 0 then return false
+  -- a consuming element / another module only wakes (spawning outside the module's executor panics)
+  if count (fun i => match i with | .w _ | .n _ => false | _ => true) oprogs != 0 then return false
+  for (tag, kind, prog) in sc.tasks.toList do
     for i in prog do
       match i with
       | .s t =>
-        -- spawn targets exist, are spawned once overall; local tasks are spawned from local context only
+        -- local tasks are spawned from local context only
         match sc.tasks.toList.find? (·.1 == t) with
         | none => return false
         | some (_, tk, _) => if tk == .loc && kind == .rt then return false
+      | .j t => if t == tag then return false
       | _ => pure ()
   for pr in all do
     for i in pr do
       match i with
       | .s t =>
+        -- spawn targets exist and are spawned once overall
         if !tags.contains t then return false
         if count (· == .s t) all != 1 then return false
       | .a k =>
-        -- a single waiting task per condition
-        if ((tprogs.filter (·.contains (.a k))).length) != 1 then return false
-      | .w k =>
-        if k % 3 == 2 && count (· == .w k) all > 1 then return false
+        -- an mpsc channel has one receiving task; semaphores and Notify any number of waiting tasks
+        if k % 3 == 1 && ((tprogs.filter (·.contains (.a k))).length) != 1 then return false
+      | .n k => if k % 3 != 2 then return false
       | .j t =>
-        -- one join per task, in the program that spawned it, after the spawn
+        -- a JoinHandle is awaited once (by any task)
+        if !tags.contains t then return false
         if count (· == .j t) all != 1 then return false
-        match pr.idxOf (.s t), pr.idxOf (.j t) with
-        | is, ij => if !(is < ij && ij < pr.length) then return false
-      | .y | .z _ | .u _ => pure ()
+      | .w _ | .y | .z _ | .u _ => pure ()
   return true
 
 structure Compiled where
@@ -125,7 +135,7 @@ def compile (sc : Script) : Compiled :=
   let tags := sc.tasks.toList.map (·.1)
   let progs := sc.tasks.toList.map (·.2.2) ++ sc.events.toList.map (·.2.2)
   let cks : List Nat := (progs.foldl (fun acc pr => pr.foldl (fun acc i => match i with
-    | .w k | .a k => if acc.contains k then acc else acc ++ [k]
+    | .w k | .a k | .n k => if acc.contains k then acc else acc ++ [k]
     | _ => acc) acc) [])
   let tr (i : TIns) : List Instr := match i with
     | .s t => match indexOf? tags t with | some x => [.spawn x] | none => []
@@ -135,11 +145,13 @@ def compile (sc : Script) : Compiled :=
     | .y => [.yield]
     | .z d => [.sleep d]
     | .u t => [.sleepUntil t]
+    | .n k => match indexOf? cks k with | some x => [.notifyAll x] | none => []
   let trp (p : List TIns) : List Instr := p.foldr (fun i acc => tr i ++ acc) []
   { tags
     s0 := { tasks := sc.tasks.toList.map (fun (_, k, p) => { kind := k, prog := trp p })
-            conds := cks.map (fun k => { coop := k % 3 != 2 }) }
-    events := sc.events.toList.map (fun (t, c, p) => { time := t, consumed := c, prog := trp p }) }
+            conds := cks.map (fun k => { coop := k % 3 != 2, cap1 := k % 3 == 2 }) }
+    events := sc.events.toList.map (fun (t, c, p) =>
+      { time := t, consumed := c == 1, foreign := c == 2, prog := trp p }) }
 
 /-- `log=1000:1,2;5000:3` -/
 def parseLog (s : String) : Option (List (Nat × Nat)) :=
@@ -155,10 +167,6 @@ def parseLog (s : String) : Option (List (Nat × Nat)) :=
 
 def showLog (l : List (Nat × Nat)) : String :=
   " ".intercalate ((l.take 12).map fun (t, g) => s!"{t}:{g}") ++ (if l.length > 12 then " .." else "")
-
-/-- per task: the sequence of observed times -/
-def perTask (tags : List Nat) (l : List (Nat × Nat)) : List (List Nat) :=
-  tags.map fun g => (l.filter (·.2 == g)).map (·.1)
 
 def firstDiff (a b : List (Nat × Nat)) : Nat := Id.run do
   let mut i := 0
@@ -195,30 +203,35 @@ def runCase (c : Case) : String := Id.run do
     let fin := runSim P false big evs [] none cp.s0
     let mlogE := fin.log.reverse
     let mlog := mlogE.map fun x => (x.time, tagAt x.idx)
-    let ideal := idealSim big evs cp.s0
-    if !(ideal.rq.isEmpty && ideal.iq.isEmpty && ideal.lq.isEmpty && ideal.dq.isEmpty && ideal.timers.isEmpty) then
-      return s!"fail {id} op={op} kind=internal what=ideal-fuel"
-    let ilog := ideal.log.reverse.map fun x => (x.time, tagAt x.idx)
-    let specOK := res == "ok" && perTask cp.tags impl == perTask cp.tags ilog
+    let untag (g : Nat) : Nat := (indexOf? cp.tags g).getD cp.tags.length
+    let verdict := ExecSpec.accept big evs [] none (impl.map fun (t, g) => (t, untag g)) 0 cp.s0
+    -- the specification must accept the model's own history (consistency of model and specification)
+    match ExecSpec.accept big evs [] none (mlogE.map fun x => (x.time, x.idx)) 0 cp.s0 with
+    | .ok => pure ()
+    | v => return s!"fail {id} op={op} kind=internal what=spec-rejects-model detail={reprStr v |>.replace "\n" " "}"
     let modelEq := impl == mlog
-    if !specOK then
+    if res != "ok" then return s!"fail {id} op={op} kind=reject tag=sim-error res={res}"
+    match verdict with
+    | .ok => pure ()
+    | v =>
       -- does the implementation behave like the single-pass `exec` (the code before the repairs)?  then attribute
       -- the first late / never-run task of that run to its mechanism
-      let fin := runSim P true big evs [] none cp.s0
-      let mlogE := fin.log.reverse
-      let modelEq := impl == mlogE.map fun x => (x.time, tagAt x.idx)
-      let late := mlogE.find? (fun x => x.time != x.ready)
-      let left : Option Entry := (fin.lq ++ fin.rq ++ fin.iq).head?
+      let fin1 := runSim P true big evs [] none cp.s0
+      let mlog1 := fin1.log.reverse
+      let single := impl == mlog1.map fun x => (x.time, tagAt x.idx)
+      let late := mlog1.find? (fun x => x.time != x.ready && x.origin != .foreign)
+      let left : Option Entry := (fin1.lq ++ fin1.rq ++ fin1.iq).head?
       let kindOf (i : Nat) : Kind := ((cp.s0.tasks[i]?).map (·.kind)).getD .rt
-      let (tg, who, rdy, obs) : String × Nat × Nat × String := match late, left with
-        | some x, _ => (tagOf (kindOf x.idx) x.origin, tagAt x.idx, x.ready, toString x.time)
-        | none, some en => (tagOf en.kind en.origin, tagAt en.idx, en.ready, "never")
-        | none, none => ("none", 0, 0, "-")
-      if modelEq then
-        return s!"fail {id} op={op} kind=reject tag={tg} task={who} ready={rdy} obs={obs} res={res}"
-      else
-        let d := firstDiff impl mlog
-        return s!"fail {id} op={op} kind=reject tag=unexplained res={res} at={d} model=[{showLog (mlog.drop d)}] impl=[{showLog (impl.drop d)}] spec=[{showLog (ilog.drop (firstDiff impl ilog))}]"
+      let tg : String := if !single then "unexplained" else match late, left with
+        | some x, _ => tagOf (kindOf x.idx) x.origin
+        | none, some en => tagOf en.kind en.origin
+        | none, none => "none"
+      let what : String := match v with
+        | .left t e => s!"left-runnable task={tagAt e.idx} at={t}"
+        | .infeasible pos t x => s!"not-runnable record={pos} task={tagAt x} at={t}"
+        | .ok => "-"
+      let d := firstDiff impl mlog
+      return s!"fail {id} op={op} kind=reject tag={tg} {what} model=[{showLog (mlog.drop d)}] impl=[{showLog (impl.drop d)}]"
     -- the measured budgets (probes: 2000 ready tasks, 1000 available messages) must be the model's
     if l != min P.L 2000 || e != min P.E 2000 || cc != min P.C 1000 || g != P.G then
       return s!"fail {id} op={op} kind=diverge what=budget model=L{min P.L 2000},E{min P.E 2000},C{min P.C 1000},G{P.G} impl=L{l},E{e},C{cc},G{g}"
@@ -231,9 +244,10 @@ def runCase (c : Case) : String := Id.run do
     let links := (mlogE.filter fun x => x.origin == .tick || x.origin == .rtloop).length
     let timed := (mlogE.filter fun x => x.origin == .timer).length
     let handed := (mlogE.filter fun x => x.origin == .outside).length
+    let foreign := (mlogE.filter fun x => x.origin == .foreign).length
     let burst := (mlog.map (·.1)).eraseDups.foldl (fun m t => max m (mlog.filter (·.1 == t)).length) 0
-    let nt := ran ≥ 2 && links + timed + handed ≥ 1
-    return s!"ok {id} nt={if nt then 1 else 0} obs={obs} tasks={ran} links={links} timerwoken={timed} handedover={handed} burst={burst} over61={if burst > 61 then 1 else 0}"
+    let nt := ran ≥ 2 && links + timed + handed + foreign ≥ 1
+    return s!"ok {id} nt={if nt then 1 else 0} obs={obs} tasks={ran} links={links} timerwoken={timed} handedover={handed} crossmodule={foreign} burst={burst} over61={if burst > 61 then 1 else 0}"
   | _, _, _, _, _, _ => return s!"fail {id} op={op} kind=badline detail={ans}"
 
 def main (stdin : IO.FS.Stream) : IO Unit := do
